@@ -19,15 +19,15 @@
 package c07
 
 import (
-	"reflect"
-	"unsafe"
 	"bytes"
 	"fmt"
+	"reflect"
 	"runtime"
 	"strings"
 	"sync"
 	"testing"
 	"time"
+	"unsafe"
 
 	sdns "github.com/bokysan/socketace/v2/internal/streams/dns"
 	"github.com/bokysan/socketace/v2/internal/streams/dns/util"
@@ -806,7 +806,9 @@ func TestCheck(t *testing.T) {
 		case "A-long":
 			var c CaseALong
 			r.DecodeReplay(&c)
-			k, d := executeALong(t, c)
+			var k, d string
+			r.SpinFails = true
+			r.Guard(0, 900*time.Second, "hang|A-long", c.String(), c, func() { k, d = executeALong(t, c) })
 			r.Eval(1)
 			r.Transition(c.Packets)
 			if k != "" {
@@ -815,7 +817,9 @@ func TestCheck(t *testing.T) {
 		case "A-close":
 			var c CaseClose
 			r.DecodeReplay(&c)
-			k, d := executeClose(t, c)
+			var k, d string
+			r.SpinFails = true
+			r.Guard(0, 120*time.Second, "hang|A-close", c.String(), c, func() { k, d = executeClose(t, c) })
 			r.Eval(1)
 			r.Transition(4)
 			if k != "" {
@@ -837,7 +841,9 @@ func TestCheck(t *testing.T) {
 		case "A":
 			var c CaseA
 			r.DecodeReplay(&c)
-			k, d := executeA(t, c)
+			var k, d string
+			r.SpinFails = true
+			r.Guard(0, 120*time.Second, "hang|A", c.String(), c, func() { k, d = executeA(t, c) })
 			recA(c, k, d)
 		case "B-long":
 			var c CaseB
@@ -858,7 +864,11 @@ func TestCheck(t *testing.T) {
 		if r.Mine(idx) {
 			c := CaseALong{Layer: "A-long", Dir: dir, Packets: 65836}
 			var k, d string
+			// ~60 s of real time on the pinned tree; slow is a hang (inconclusive), a harness step that never
+			// returns while cores stay busy is a livelock (r.SpinFails, busy-loop violation)
+			r.SpinFails = true
 			r.Guard(idx, 900*time.Second, "hang|A-long", c.String(), c, func() { k, d = executeALong(t, c) })
+			r.SpinFails = false
 			r.Eval(1)
 			r.Transition(c.Packets)
 			r.State(mc.Hash("A-long", dir, k))
@@ -978,7 +988,7 @@ func TestCheck(t *testing.T) {
 			runs = append(runs, wr{0, 66200}, wr{40000, 26000})
 		}
 		for _, w := range runs {
-			wrapAt := 65536 - int(w.start) // packet number that carries sequence number 0
+			wrapAt := 65536 - int(w.start)                     // packet number that carries sequence number 0
 			for fate := 1; fate < int(world.Foreign); fate++ { // (a refused query never reaches the queues: Layer A has that fate)
 				for at := wrapAt - 3; at <= wrapAt+2; at++ {
 					for try := 0; try < 2; try++ {
@@ -1015,7 +1025,9 @@ func TestCheck(t *testing.T) {
 				break
 			}
 			var k, d string
+			r.SpinFails = true // Layer A runs in bubbles: a harness step that never returns while cores stay busy is a livelock
 			r.Guard(idx, 120*time.Second, "hang|A", c.String(), c, func() { k, d = executeA(t, c) })
+			r.SpinFails = false
 			recA(c, k, d)
 			if idx%2003 == 0 {
 				r.Sample(map[string]any{"case": c.String(), "outcome": k})
@@ -1029,7 +1041,9 @@ func TestCheck(t *testing.T) {
 		if r.Mine(idx) && !r.OverBudget() {
 			c := c
 			var k, d string
+			r.SpinFails = true
 			r.Guard(idx, 120*time.Second, "hang|A-close", c.String(), c, func() { k, d = executeClose(t, c) })
+			r.SpinFails = false
 			r.Eval(1)
 			r.Transition(4)
 			r.State(mc.Hash("A-close", c.String(), k))
